@@ -263,8 +263,10 @@ def _metrics():
 def _curve():
     def variants(tier, r, cin):
         # ":seg" = the recorded segment limits coincide with the stored balance points (a balance point parked on its bound)
-        vs = ["daily:America/Chicago", "daily:America/Chicago:seg", "daily:Asia/Kolkata", "billing:America/Chicago", "billing:America/Chicago:seg"]
-        return vs if tier == "thorough" else [vs[0], vs[1], r.choice(vs[2:])]
+        # ":sorted" / ":reversed" = the same document with the members of every JSON object in another order, read with from_json
+        vs = ["daily:America/Chicago", "daily:America/Chicago:seg", "daily:Asia/Kolkata", "billing:America/Chicago", "billing:America/Chicago:seg",
+              "daily:America/Chicago:sorted", "daily:America/Chicago:seg:reversed", "billing:America/Chicago:sorted"]
+        return vs if tier == "thorough" else [vs[0], vs[1], r.choice(vs[2:5]), r.choice(vs[5:])]
 
     return runner.PureSpec(
         prop="C11", module="Curve", trace_module="CurveTrace", driver="drivers.curve",
@@ -310,7 +312,12 @@ def _resample(prop):
         elif cin["kind"] == "subdaily":
             vs = [f + "@" + z for f in ("nan-cells", "absent-rows") for z in ("America/Chicago", "Europe/London", "Australia/Sydney")]
         else:
-            vs = [f + "@" + z for f in ("feed-local", "feed-utc", "feed-kolkata") for z in ("America/Chicago", "Europe/London", "Australia/Sydney")]
+            # "!e0": an electricity meter that reads exactly 0 on the judged day (zero is missing USAGE; the day's temperature is still its mean)
+            vs = [f + e + "@" + z for e in ("", "!e0") for f in ("feed-local", "feed-utc", "feed-kolkata") for z in ("America/Chicago", "Europe/London", "Australia/Sydney")]
+            if cin.get("mh", 0):     # zero reads are only placed on calendar-day meters (the per-day counts are read through an internal call whose
+                vs = vs[:9]          # frame this harness assembles itself; with usage-less rows off midnight that frame is not the one from_series builds)
+                return vs if tier == "thorough" else [vs[0], r.choice(vs[1:])]
+            return vs if tier == "thorough" else [vs[0], r.choice(vs[1:9]), r.choice(vs[9:])]
         return vs if tier == "thorough" else [vs[0], r.choice(vs[1:])]
 
     keep = 'pc = "done"'
